@@ -181,6 +181,22 @@ func classifyTerm(L *Loaded, t string, fn *ssa.Function, depth int) []string {
 		return []string{"user:package"}
 	case strings.HasPrefix(t, "fmt.Sprintf("):
 		return []string{"derived:Sprintf"}
+	case strings.HasPrefix(t, "bin+(") && (strings.Contains(t, "strconv.Itoa(") || strings.Contains(t, "strconv.FormatInt(")):
+		// <prefix> + decimal index: the same derived names as fmt.Sprintf("<prefix>%d", i) when the prefix is a constant
+		inner := strings.TrimSuffix(strings.TrimPrefix(t, "bin+("), ")")
+		prefix := inner
+		if i := strings.Index(inner, ", strconv."); i >= 0 {
+			prefix = inner[:i]
+		}
+		ok := true
+		for _, cl := range classifyTerm(L, prefix, fn, depth+1) {
+			if !strings.HasPrefix(cl, "const:") {
+				ok = false
+			}
+		}
+		if ok {
+			return []string{"derived:Sprintf"}
+		}
 	case strings.HasPrefix(t, "(*go/types.") || strings.HasPrefix(t, "invoke (go/types."):
 		return []string{"typederived"}
 	case strings.HasPrefix(t, "param:") && depth < 3 && fn != nil:
@@ -807,10 +823,58 @@ func newIdentCallOf(p *packages.Package, fn *ast.FuncDecl, e ast.Expr) *ast.Call
 // isTypeRenderer: the function turns go/types values into a type expression (first result go/ast.Expr, some parameter
 // from go/types). Field names it emits sit in type position.
 func isTypeRenderer(p *packages.Package, fd *ast.FuncDecl) bool {
+	if isTypeRendererProper(p, fd) {
+		return true
+	}
+	// a helper of the type renderer: takes go/types values, returns go/ast values, and is called only by type renderers (or itself)
+	if !takesTypesReturnsAst(p, fd, false) {
+		return false
+	}
+	obj := p.TypesInfo.Defs[fd.Name]
+	if obj == nil {
+		return false
+	}
+	callers := 0
+	for _, f := range p.Syntax {
+		for _, d := range f.Decls {
+			g, ok := d.(*ast.FuncDecl)
+			if !ok || g.Body == nil || g == fd {
+				continue
+			}
+			uses := false
+			ast.Inspect(g.Body, func(n ast.Node) bool {
+				if id, ok := n.(*ast.Ident); ok && p.TypesInfo.Uses[id] == obj {
+					uses = true
+				}
+				return true
+			})
+			if uses {
+				if !isTypeRendererProper(p, g) {
+					return false
+				}
+				callers++
+			}
+		}
+	}
+	return callers > 0
+}
+
+func isTypeRendererProper(p *packages.Package, fd *ast.FuncDecl) bool {
+	return takesTypesReturnsAst(p, fd, true)
+}
+
+func takesTypesReturnsAst(p *packages.Package, fd *ast.FuncDecl, exprOnly bool) bool {
 	if fd.Type.Results == nil || len(fd.Type.Results.List) == 0 || fd.Type.Params == nil {
 		return false
 	}
-	if t := p.TypesInfo.TypeOf(fd.Type.Results.List[0].Type); t == nil || t.String() != "go/ast.Expr" {
+	t := p.TypesInfo.TypeOf(fd.Type.Results.List[0].Type)
+	if t == nil {
+		return false
+	}
+	if exprOnly && t.String() != "go/ast.Expr" {
+		return false
+	}
+	if !exprOnly && !strings.Contains(t.String(), "go/ast.") {
 		return false
 	}
 	for _, fl := range fd.Type.Params.List {
